@@ -18,6 +18,10 @@ pub struct Cfg {
     pub contacts: usize,
     /// every third contact goes silent at 2 s (stale, later bad entries)
     pub some_silent: bool,
+    /// every contact goes silent at 2 s: for a few seconds after 15 minutes the table holds questionable nodes only
+    pub all_silent: bool,
+    /// 200 peers are announced on the info-hash used by the get_peers probes (the reply has to be cut down)
+    pub crowded: bool,
     pub v6: bool,
     pub rng_seed: u64,
 }
@@ -54,6 +58,7 @@ fn asker(v6: bool) -> SocketAddr {
 }
 
 const INSTANTS: [u64; 3] = [4_000, 950_000, 1_500_000];
+const INSTANTS_ALL_SILENT: [u64; 3] = [4_000, 903_500, 905_000];
 
 fn targets() -> Vec<[u8; 20]> {
     let own = InfoHash::from(n_id());
@@ -78,6 +83,9 @@ pub fn build(cfg: &Cfg) -> (Scenario, Vec<Box<dyn Peer>>) {
     let mut peers: Vec<Box<dyn Peer>> = vec![];
     for i in 0..cfg.contacts {
         let mut r = Responder::new(c_addr(i, cfg.v6), c_id(i), universe.clone());
+        if cfg.all_silent {
+            r.silent_from = Some(2_000);
+        }
         if cfg.some_silent && i % 3 == 1 {
             r.silent_from = Some(2_000);
             // the others stop naming it so that it can be purged
@@ -90,7 +98,13 @@ pub fn build(cfg: &Cfg) -> (Scenario, Vec<Box<dyn Peer>>) {
     }
     sc.nodes.push(NodeSpec { addr: n_addr(cfg.v6), id: Some(InfoHash::from(n_id())), read_only: false, announce_port: None, contacts: (0..cfg.contacts.min(8)).map(|i| c_addr(i, cfg.v6)).collect(), routers: vec![], start_ms: 0 });
     let tg = targets();
-    for (k, t) in INSTANTS.iter().enumerate() {
+    if cfg.crowded {
+        // one client announces 200 ports on target #0
+        let c = asker(cfg.v6);
+        sc.actions.push((When::At(2_500), Action::Inject { from: c, to: n_addr(cfg.v6), bytes: krpc::get_peers(b"tok?", &[0x33; 20], &tg[0], None), tag: String::new() }));
+    }
+    let instants = if cfg.all_silent { INSTANTS_ALL_SILENT } else { INSTANTS };
+    for (k, t) in instants.iter().enumerate() {
         sc.actions.push((When::At(*t), Action::ProbeTable { node: 0, from: prober(), tag: format!("dump{k}") }));
         for (j, target) in tg.iter().enumerate() {
             for (w, want) in [None, Some(vec!["n4"]), Some(vec!["n6"]), Some(vec!["n4", "n6"])].iter().enumerate() {
@@ -101,7 +115,7 @@ pub fn build(cfg: &Cfg) -> (Scenario, Vec<Box<dyn Peer>>) {
             }
         }
     }
-    sc.horizon_ms = INSTANTS[2] + 1_000;
+    sc.horizon_ms = instants[2] + 1_000;
     sc.link_latency = Arc::new(|_, _| 10);
     (sc, peers)
 }
@@ -113,7 +127,7 @@ pub fn judge(cfg: &Cfg, res: &RunResult) -> (Vec<(String, String)>, u64, Vec<usi
     let tg = targets();
     let mut checked = 0u64;
     let mut sizes = vec![];
-    for k in 0..INSTANTS.len() {
+    for k in 0..3 {
         // dump
         let prefix = format!("dump{k}:");
         let mut table: BTreeSet<([u8; 20], SocketAddr)> = BTreeSet::new();
@@ -179,12 +193,25 @@ pub fn judge(cfg: &Cfg, res: &RunResult) -> (Vec<(String, String)>, u64, Vec<usi
 }
 
 fn cfg_json(c: &Cfg) -> Value {
-    json!({"contacts":c.contacts,"some_silent":c.some_silent,"v6":c.v6,"rng_seed":c.rng_seed})
+    json!({"contacts":c.contacts,"some_silent":c.some_silent,"all_silent":c.all_silent,"crowded":c.crowded,"v6":c.v6,"rng_seed":c.rng_seed})
 }
 
 pub fn replay(v: &Value) -> i32 {
+    if v["part"] == "binding-crowded" {
+        let v6 = v["v6"].as_bool().unwrap_or(false);
+        let cfg = super::c17::Cfg { v6_peers: v6, node_v6: v6, k: v["k"].as_u64().unwrap_or(200) as usize, table: 9, all_tid_lengths: false };
+        let (_, f, _) = super::c17::run_one(&cfg, 1);
+        let mut code = 0;
+        for (tag, sig, what) in &f.items {
+            if *tag == "C09" {
+                println!("VIOLATION {sig}: {what}");
+                code = 1;
+            }
+        }
+        return code;
+    }
     let c = &v["cfg"];
-    let cfg = Cfg { contacts: c["contacts"].as_u64().unwrap_or(9) as usize, some_silent: c["some_silent"].as_bool().unwrap_or(false), v6: c["v6"].as_bool().unwrap_or(false), rng_seed: c["rng_seed"].as_u64().unwrap_or(1) };
+    let cfg = Cfg { contacts: c["contacts"].as_u64().unwrap_or(9) as usize, some_silent: c["some_silent"].as_bool().unwrap_or(false), all_silent: c["all_silent"].as_bool().unwrap_or(false), crowded: c["crowded"].as_bool().unwrap_or(false), v6: c["v6"].as_bool().unwrap_or(false), rng_seed: c["rng_seed"].as_u64().unwrap_or(1) };
     let (sc, peers) = build(&cfg);
     let res = sim::run(&sc, peers, &mut sim::DefaultChooser);
     let (viol, checked, sizes) = judge(&cfg, &res);
@@ -201,8 +228,13 @@ pub fn run(tier: Tier, rep: &mut Report) {
     for contacts in tier.pick(vec![3usize, 9, 17], vec![1, 3, 9, 17, 30]) {
         for some_silent in [false, true] {
             for v6 in [false, true] {
-                cfgs.push(Cfg { contacts, some_silent, v6, rng_seed: seed });
+                cfgs.push(Cfg { contacts, some_silent, all_silent: false, crowded: false, v6, rng_seed: seed });
             }
+        }
+    }
+    for contacts in [3usize, 9, 12] {
+        for v6 in [false, true] {
+            cfgs.push(Cfg { contacts, some_silent: false, all_silent: true, crowded: false, v6, rng_seed: seed });
         }
     }
     let outs = par_map(&cfgs, |_, cfg| {
@@ -218,6 +250,23 @@ pub fn run(tier: Tier, rep: &mut Report) {
         info.push(json!({"cfg":cfg_json(cfg),"table_sizes_at_instants":sizes,"replies_checked":checked}));
         for (sig, what) in viol {
             rep.violation(format!("handler {sig}"), format!("{what} [{:?}]", cfg), json!({"engine":"E1","check":"C09","part":"binding","cfg":cfg_json(cfg)}));
+        }
+    }
+    // replies that had to be cut down to fit a datagram must still carry the node list
+    {
+        let heavy: Vec<super::c17::Cfg> = [false, true].iter().flat_map(|v6| [150usize, 200, 500].into_iter().map(move |k| super::c17::Cfg { v6_peers: *v6, node_v6: *v6, k, table: 9, all_tid_lengths: false })).collect();
+        let outs = par_map(&heavy, |_, cfg| {
+            let (res, f, _) = super::c17::run_one(cfg, seed);
+            (res.wire.len() as u64, f)
+        });
+        for (cfg, (wire, f)) in heavy.iter().zip(outs.iter()) {
+            rep.add("e1_wire_events", *wire);
+            rep.add("e1_replies_checked", f.replies_checked);
+            for (tag, sig, what) in &f.items {
+                if *tag == "C09" {
+                    rep.violation(format!("handler crowded-store {sig}"), format!("{what} [{:?}]", cfg), json!({"engine":"E1","check":"C09","part":"binding-crowded","k":cfg.k,"v6":cfg.v6_peers}));
+                }
+            }
         }
     }
     rep.set("e1_binding_runs", json!(info));
